@@ -18,7 +18,7 @@ EXPLANATION = (
     'new SETUP; (d) a store that replaces the stream table is dominated, with no suspension point in between, by '
     'failing every entry of the table being replaced, so no request registered since the last close sequence is '
     'orphaned. Not decided: that requests issued afterwards are served (liveness).')
-EXPLANATION_ADDED = ('(e) reconnect() sets the event the listener waits on; each iteration waits first, skips while a connect is in progress, otherwise marks, clears, closes, connects, and the mark is taken back on every exit of the connect attempt; (f) the transport taken from the provider resolves the transport future and is connected, the closing flag is cleared before the tasks start.')
+EXPLANATION_ADDED = ('(e) reconnect() sets the event the listener waits on; each iteration waits first, skips while a connect is in progress, otherwise marks, clears, closes, connects, and the mark is taken back on every exit of the connect attempt; (f) the transport taken from the provider resolves the transport future and is connected, the closing flag is cleared before the tasks start. Every exit of the old receiver - cancellation by the reconnect included - reaches the close sequence that fails what was pending (shared C11.a).')
 EXPLANATION = EXPLANATION.replace(' Not decided', ' ' + EXPLANATION_ADDED + ' Not decided', 1) \
     if ' Not decided' in EXPLANATION else EXPLANATION + ' ' + EXPLANATION_ADDED
 ASSUMPTIONS = COMMON_ASSUMPTIONS
@@ -420,9 +420,13 @@ def rule_plumbing(ctx):
     from . import plumbing
     plumbing.rule_close_transport(ctx, 'C17.b')
     plumbing.rule_sender_hooks(ctx, 'C17.b')
+    # reconnect cancels the old receiver: that exit, like EOF and transport error, must reach the close sequence that
+    # fails what was pending on the old connection (shared C11.a)
+    from .c11 import rule_a as c11a
+    c11a(ctx)
     # keepalives restart with every connection (shared C15.c)
     from .c15 import rule_c as c15c
     c15c(ctx)
 
 
-RULES = [('C17.a', rule_a), ('C17.b', rule_b), ('C17.c', rule_c), ('C17.d', rule_d), ('C17.e', rule_e), ('C17.f', rule_f), ('C17.b', rule_plumbing)]
+RULES = [('C17.a', rule_a), ('C17.b', rule_b), ('C17.c', rule_c), ('C17.d', rule_d), ('C17.e', rule_e), ('C17.f', rule_f), ('C17.b+C11.a', rule_plumbing)]
